@@ -55,7 +55,7 @@ impl Serialize for MemoryLocation {
             MemoryLocation::StackOffset(i) => serializer.serialize_str(&format!(
                 "so{}{}",
                 if i < &0 { "-" } else { "+" },
-                i.abs()
+                i.unsigned_abs()
             )),
         }
     }
@@ -76,12 +76,12 @@ impl Visitor<'_> for MemoryLocationVisitor {
     {
         if let Some(so) = v.strip_prefix("so") {
             let (sign, num) = so.split_at(1);
-            let num = num.parse::<i32>().map_err(de::Error::custom)?;
-            Ok(MemoryLocation::StackOffset(if sign == "-" {
-                -num
-            } else {
-                num
-            }))
+            // (the magnitude of the most negative offset does not fit in an i32)
+            let num = num.parse::<i64>().map_err(de::Error::custom)?;
+            let num = if sign == "-" { -num } else { num };
+            Ok(MemoryLocation::StackOffset(
+                i32::try_from(num).map_err(de::Error::custom)?,
+            ))
         } else if let Some(csr) = v.strip_prefix("csr+") {
             let csr = csr.parse::<u32>().map_err(de::Error::custom)?;
             Ok(MemoryLocation::CsrRegister(CsrImm::new(csr)))
@@ -129,7 +129,7 @@ impl std::fmt::Display for MemoryLocation {
             }
             MemoryLocation::StackOffset(offset) => {
                 if offset < &0 {
-                    write!(f, "sp_i - {}", offset.abs())
+                    write!(f, "sp_i - {}", offset.unsigned_abs())
                 } else {
                     write!(f, "sp_i + {offset}")
                 }
